@@ -39,7 +39,7 @@ struct ObjectType {
     QStringList fields;
     QStringList kinds;
     // vals.size() == fields.size(); plainText: replace free-text values by plain ones (baseline)
-    std::function<QJsonObject(const QVector<PlanValue> &vals)> run;
+    std::function<QJsonObject(const QVector<PlanValue> &vals, bool logGetters)> run;
 };
 
 namespace qxvfields {
@@ -121,7 +121,7 @@ ObjectType makeType(const QString &name, QVector<Field<T>> fs, std::function<voi
         t.kinds << f.kind;
     }
     // contextNs: the namespace a sub-element inherits from the element the library writes it into
-    t.run = [fs, init, contextNs](const QVector<PlanValue> &vals) -> QJsonObject {
+    t.run = [fs, init, contextNs](const QVector<PlanValue> &vals, bool logGetters) -> QJsonObject {
         QJsonArray bad;
         auto build = [&](bool plain) {
             T o {};
@@ -151,6 +151,14 @@ ObjectType makeType(const QString &name, QVector<Field<T>> fs, std::function<voi
             bad.append(QJsonObject { { "k", kind }, { "f", field }, { "want", want.left(200) }, { "got", got.left(200) } });
         };
         QJsonObject res { { "nset", nset }, { "x1", QString::fromUtf8(x1).left(600) } };
+        if (logGetters) {
+            // what the getters report before serialization (compared across heap fill patterns)
+            QJsonArray g;
+            for (int i = 0; i < fs.size(); i++) {
+                g.append(fs[i].name + QChar('=') + before[i].left(60));
+            }
+            res["g"] = g;
+        }
         auto f1 = parseFragment(x1, contextNs);
         if (!f1.wf) {
             fail("illformed", {}, {}, {});
@@ -261,5 +269,5 @@ ObjectType makeType(const QString &name, QVector<Field<T>> fs, std::function<voi
 #define F_CUSTOM(T, NAME, KIND, S, G) qxvfields::Field<T> { NAME, KIND, S, G }
 
 const QVector<ObjectType> &objectTypes();
-QJsonObject objectCase(Ctx &ctx, const QString &cls, int map, const QJsonArray &vals, int variant);
+QJsonObject objectCase(Ctx &ctx, const QString &cls, int map, const QJsonArray &vals, int variant, bool logGetters = false);
 QJsonObject scalarChecks();
